@@ -40,6 +40,12 @@ class Report:
         self.harness_errors = []
         self.coverage = {}
         self.assumptions = []
+        import glob
+        for f in glob.glob(os.path.join(VERIF, "replays", "tmp", "%s-%s-*.json" % (prop, tier))):
+            try:
+                os.remove(f)
+            except OSError:
+                pass
 
     def add_violation(self, v):
         self.violations.append(v)
